@@ -724,6 +724,24 @@ fn case_soup(rng: &mut Rng, w: &W, out: &mut impl Write) {
     let (mut cols, mut rows) = (rng.range(1, 8), rng.range(1, 6));
     let limit = gen_limit(rng, w);
     writeln!(out, "N 0 {} {} {}", cols, rows, lim_tok(limit)).unwrap();
+    if rng.chance(25) && rows >= 2 {
+        // park the cursor outside the scroll region with origin mode on (needs DECOM, a save, new
+        // margins and a restore in that order - too rare to arise by chance)
+        let s = gen_park_outside(rng, cols, rows);
+        writeln!(out, "S 0 {}", hex_encode(&s)).unwrap();
+        // ... and move around vertically while parked there
+        for _ in 0..rng.range(2, 6) {
+            let m = match rng.below(7) {
+                0 | 1 => "\u{1b}M".to_string(),
+                2 => "\n".to_string(),
+                3 => format!("\u{1b}[{}A", rng.range(1, 2)),
+                4 => format!("\u{1b}[{}B", rng.range(1, 2)),
+                5 => "\u{1b}D".to_string(),
+                _ => format!("\u{1b}[{}e", rng.range(1, 2)),
+            };
+            writeln!(out, "S 0 {}", hex_encode(&m)).unwrap();
+        }
+    }
     let nops = rng.range(6, 40);
     for _ in 0..nops {
         if rng.chance(w.resize_pct / 2) {
@@ -740,6 +758,39 @@ fn case_soup(rng: &mut Rng, w: &W, out: &mut impl Write) {
                 1 => writeln!(out, "TEXT 0").unwrap(),
                 2 => writeln!(out, "UNWRAP 0").unwrap(),
                 _ => writeln!(out, "CHUNKS 0 {}", rng.below(rows)).unwrap(),
+            }
+        }
+    }
+}
+
+/// tab-stop scenario: widths around multiples of 8, custom stops, narrowing exactly onto a stop column,
+/// widening again, then counted tab movements across the boundary
+fn case_tabs(rng: &mut Rng, w: &W, out: &mut impl Write) {
+    let widths = [7usize, 8, 9, 15, 16, 17, 20, 23, 24, 25, 30, 32, 33, 40];
+    let mut cols = *rng.pick(&widths[4..]);
+    let rows = rng.range(1, 4);
+    writeln!(out, "N 0 {} {} {}", cols, rows, lim_tok(gen_limit(rng, w))).unwrap();
+    let nops = rng.range(6, 24);
+    for _ in 0..nops {
+        match rng.weighted(&[22, 10, 10, 28, 10, 10, 10]) {
+            0 => {
+                cols = *rng.pick(&widths);
+                writeln!(out, "R 0 {} {}", cols, rows).unwrap();
+            }
+            1 => writeln!(out, "S 0 {}", hex_encode(&format!("\u{1b}[{}G\u{1b}H", rng.range(1, cols + 1)))).unwrap(),
+            2 => writeln!(out, "S 0 {}", hex_encode(&format!("\u{1b}[{}G\u{1b}[g", rng.range(1, cols + 1)))).unwrap(),
+            3 => {
+                let f = *rng.pick(&['I', 'Z']);
+                let n = rng.range(1, 4);
+                writeln!(out, "S 0 {}", hex_encode(&format!("\u{1b}[{}G", rng.range(1, cols + 1)))).unwrap();
+                writeln!(out, "S 0 {}", hex_encode(&format!("\u{1b}[{}{}", n, f))).unwrap();
+            }
+            4 => writeln!(out, "S 0 {}", hex_encode("\r\t")).unwrap(),
+            5 => writeln!(out, "S 0 {}", hex_encode(*rng.pick(&["\u{1b}[3g", "\u{1b}[5W", "\u{1b}[?1049h", "\u{1b}[?1049l", "\u{1b}c"]))).unwrap(),
+            _ => {
+                let n = rng.range(1, cols + 1);
+                let t: String = (0..n).map(|_| gen_char(rng)).collect();
+                writeln!(out, "S 0 {}", hex_encode(&t)).unwrap();
             }
         }
     }
@@ -1190,6 +1241,7 @@ pub fn generate(profile: &str, seed: u64, ncases: usize, tier: &str, out: &mut i
             "C14" => case_c14(&mut rng, &w, out),
             "C16" => case_c16(&mut rng, &w, out),
             "C19" => case_c19(&mut rng, &w, out),
+            "C18" | "C05" if i % 8 == 5 => case_tabs(&mut rng, &w, out),
             "C01" | "C02" | "C05" | "C17" | "C15" | "C13" => {
                 if i % 3 == 2 {
                     case_soup(&mut rng, &w, out)
